@@ -1,6 +1,6 @@
 (* C12 - Selectors resolve compositionally with the documented index and slice rules. *)
 From Coq Require Import String.
-Require Import Base Node Selector SelectorProofs.
+Require Import Base Node Selector SelectorProofs Generated Utf8 Utf8Proofs CharsProofs.
 Local Open Scope Z_scope.
 
 (* Resolving a selector = resolving its segments one after the other *)
@@ -92,3 +92,14 @@ Example C12_nonvacuous :
   /\ resolve [{| sk := KIndex 0; sopt := true |}] (Some m) = Ok None
   /\ resolve [{| sk := KSlice (Some (-2)) None; sopt := false |}] (Some (List [Int 1; Int 2; Int 3])) = Ok (Some (List [Int 2; Int 3])).
 Proof. cbv zeta. repeat split; try (eexists; vm_compute; reflexivity); vm_compute; reflexivity. Qed.
+
+(* "slices on strings (by character)": the groups the model slices are, on valid UTF-8, exactly the encodings
+   of the string's code points, one group per code point ([]rune(str) in the Go code), and grouping loses no byte *)
+Theorem C12_string_slices_count_code_points : forall (s : str) rs, Forall (fun b => (b < 256)%N) s -> runes s = Some rs ->
+  chars s = map utf8_encode rs /\ length (chars s) = length rs.
+Proof. exact chars_are_the_code_points. Qed.
+Print Assumptions C12_string_slices_count_code_points.
+
+Theorem C12_character_groups_lose_nothing : forall s : str, concat (chars s) = s.
+Proof. exact concat_chars. Qed.
+Print Assumptions C12_character_groups_lose_nothing.
